@@ -5,6 +5,7 @@ from anytree import NodeMixin, LightNodeMixin
 
 class PNode(NodeMixin):
     """plain NodeMixin class, payload = integer label"""
+    kind = "plain"          # a class-level default: an attribute every node *has* without storing it
 
     def __init__(self, label, parent=None):
         self.label = label
